@@ -71,6 +71,10 @@ pub fn get_date_now_uncached() -> [u8; DATE_LEN] {
 
 #[inline]
 fn now_unix_sec() -> i64 {
+    #[cfg(khttp_verif)]
+    if let Some(t) = crate::verif::test_clock() {
+        return t;
+    }
     // Prefer coarse clock (Linux) -> cheaper, 1s granularity is enough
     #[cfg(target_os = "linux")]
     const CLOCK_REALTIME_FAST: i32 = 5; // CLOCK_REALTIME_COARSE
